@@ -14,7 +14,9 @@ code->spec  : random package directories (ebuilds, files/ trees with sub-directo
               decoys, empty files) and distfile checksum sets, thick and thin, several checksum sets.  The real
               Manifest.update() writes the file, the real parse_manifest() reads it back; sizes / checksums of the
               inputs are computed independently (hashlib).  Manifest_Trace judges ParseBack_DIST/AUX/EBUILD/MISC,
-              Parses, OrderIndependent (os.listdir results and the fetchables list shuffled: identical bytes),
+              Parses, OrderIndependent (os.listdir results, the fetchables list, the key order of every
+              fetchable.chksums mapping and the order of the chfs argument shuffled: identical bytes), Instance_* (a
+              Manifest object consulted before update() reports afterwards exactly what it generated),
               IdempotentNoWrite (a second update() on the up-to-date file performs zero filesystem mutations).
               update() over an old Manifest is recorded by fsrec and replayed through FsModel by FsTrace (Watch:
               Manifest is the complete old or new file after every syscall, Frame, FinalState), re-run with a
@@ -33,7 +35,9 @@ from pylib.common import mktmp, rng, use_repo
 
 LEVEL = "model_checking"
 
-CHF_SETS = [("size", "blake2b", "sha512"), ("size", "sha256"), ("size", "md5", "sha1"), ("size", "sha512")]
+# the order of the chfs argument is an input order too: alphabetical and non-alphabetical ones
+CHF_SETS = [("size", "blake2b", "sha512"), ("sha512", "size", "blake2b"), ("size", "sha256"), ("size", "sha1", "md5"),
+            ("sha512", "sha256", "size", "md5"), ("size", "sha512")]
 HASH = {"blake2b": hashlib.blake2b, "sha512": hashlib.sha512, "sha256": hashlib.sha256, "md5": hashlib.md5, "sha1": hashlib.sha1}
 NAMES = ["a.patch", "b-1.2.diff", "init.d", "Z", "x.conf", "x+y", "00", "ChangeLog", "metadata.xml", "README", "zz.ebuild.bak", "ebuild"]
 
@@ -155,17 +159,44 @@ def run(ck):
         return pk
 
     def fetchables(c, rr=None, stale=False):
-        fl = [fetchable(d["name"], chksums=dict(d["sums"], size=d["size"])) for d in c["dist"]]
+        """rr: permute every order the caller controls — the list of fetchables AND the key order of each
+        fetchable.chksums mapping (freshly hashed vs. read back from a Manifest give different key orders)."""
+        fl = []
+        for d in c["dist"]:
+            items = list(d["sums"].items()) + [("size", d["size"])]
+            if rr is not None:
+                rr.shuffle(items)
+            fl.append(fetchable(d["name"], chksums=dict(items)))
         if stale:
             fl = fl[1:]
         if rr is not None:
             rr.shuffle(fl)
         return fl
 
-    def update(pk, c, rr=None, stale=False):
+    def chfs_of(c, rr=None):
+        chfs = list(c["chfs"])
+        if rr is not None:
+            rr.shuffle(chfs)
+        return tuple(chfs)
+
+    def update(pk, c, rr=None, stale=False, inst=None):
         with shuffled_listing(rr):
-            return digest.Manifest(os.path.join(pk, "Manifest"), thin=c["thin"], allow_missing=True).update(
-                fetchables(c, rr, stale), chfs=tuple(c["chfs"]))
+            m = inst if inst is not None else digest.Manifest(os.path.join(pk, "Manifest"), thin=c["thin"], allow_missing=True)
+            return m.update(fetchables(c, rr, stale), chfs=chfs_of(c, rr))
+
+    def ents(m, split):
+        out = []
+        for name, ch in sorted(m.items()):
+            out.append(dict(name=[cps(x) for x in (name.split("/") if split else [name])], size=ch["size"],
+                            sums=[dict(chf=k, hex=hexnorm(v)) for k, v in sorted(ch.items()) if k != "size"]))
+        return out
+
+    def instance_view(m):
+        """What a Manifest OBJECT reports through its accessors (the way the repository consults it)."""
+        try:
+            return dict(DIST=ents(m.distfiles, False), AUX=ents(m.aux_files, True), EBUILD=ents(m.ebuilds, False), MISC=ents(m.misc, False))
+        except (perrors.ParseChksumError, perrors.MetadataException) as e:
+            return dict(error=type(e).__name__)
 
     def parsed_view(path):
         """parse_manifest of the file, projected: names as code points, checksums as hex."""
@@ -176,12 +207,6 @@ def run(ck):
         except perrors.ParseChksumError as e:
             return dict(error=type(e).__name__)
 
-        def ents(m, split):
-            out = []
-            for name, ch in sorted(m.items()):
-                out.append(dict(name=[cps(x) for x in (name.split("/") if split else [name])], size=ch["size"],
-                                sums=[dict(chf=k, hex=hexnorm(v)) for k, v in sorted(ch.items()) if k != "size"]))
-            return out
         return dict(DIST=ents(dist, False), AUX=ents(aux, True), EBUILD=ents(ebuild, False), MISC=ents(misc, False))
 
     def inputs(c, pk):
@@ -200,9 +225,10 @@ def run(ck):
                 for d in c["dist"]]
         return files, dist
 
-    def gen_event(tid, i, c, pk, **extra):
+    def gen_event(tid, i, c, pk, view=None, via="file", **extra):
         files, dist = inputs(c, pk)
-        v = parsed_view(os.path.join(pk, "Manifest"))
+        v = parsed_view(os.path.join(pk, "Manifest")) if view is None else view
+        extra["via"] = via
         ok = "DIST" in v
         empty = dict(DIST=[], AUX=[], EBUILD=[], MISC=[])
         return dict(tid=tid, i=i, ev="gen", files=files, dist=dist, thin=c["thin"], perr="" if ok else (v.get("error") or "absent"),
@@ -229,8 +255,15 @@ def run(ck):
         os.mkdir(rt)
         pk = build_dir(rt, c)
         mpath = os.path.join(pk, "Manifest")
-        update(pk, c, None)
+        # one Manifest object is consulted first (no file yet: empty), then generates, then is consulted again:
+        # the object must report what it generated, exactly like a fresh parse of the file
+        m = digest.Manifest(mpath, thin=c["thin"], allow_missing=True)
+        instance_view(m)
+        update(pk, c, None, inst=m)
         my_events.append(gen_event(tid, i, c, pk))
+        if specified:
+            i += 1
+            my_events.append(gen_event(tid, i, c, pk, view=instance_view(m), via="instance"))
         cid_a = cid(mpath)
         # ---- (2) regenerate the up-to-date Manifest: must write nothing ----
         if specified:
@@ -246,6 +279,18 @@ def run(ck):
                 update(pk, c, random.Random(c["seed"] * 7 + k))
                 i += 1
                 my_events.append(dict(tid=tid, i=i, ev="perm", cid_a=cid_a, cid_b=cid(mpath)))
+            # ---- (3b) the directory changes; an object that has already read the OLD Manifest regenerates it ----
+            m2 = digest.Manifest(mpath, thin=c["thin"], allow_missing=True)
+            instance_view(m2)
+            eb = sorted(p for p in c["files"] if p.endswith(".ebuild") and "/" not in p)[0]
+            with open(os.path.join(pk, eb), "ab") as f:
+                f.write(b"# bumped\n")
+            c2 = dict(c, dist=c["dist"] + [dict(name="added-9.tar.gz", size=4242, sums={k: 7 for k in c["chfs"] if k != "size"})])
+            update(pk, c2, random.Random(c["seed"] + 5), inst=m2)
+            i += 1
+            my_events.append(gen_event(tid, i, c2, pk))
+            i += 1
+            my_events.append(gen_event(tid, i, c2, pk, view=instance_view(m2), via="instance"))
         fsrec._real_rmtree(rt)
         ck.count()
         covered = len(c["dist"]) + (0 if c["thin"] else sum(1 for p in c["files"] if not {"CVS", ".svn", "Manifest"} & set(p.split("/"))))
@@ -299,7 +344,7 @@ def run(ck):
     for v in ck.trace("Manifest_Trace", my_events, timeout=1200):
         e = idx[(v["tid"], v["i"])]
         d = short(cases[v["tid"]])
-        d.update(event=e["ev"], recover_k=e.get("recover_k", 0))
+        d.update(event=e["ev"], recover_k=e.get("recover_k", 0), via=e.get("via", ""))
         if e["ev"] == "gen":
             d.update(perr=e["perr"], parsed_counts={k: len(x) for k, x in e["parsed"].items()})
         elif e["ev"] == "regen":
